@@ -1,5 +1,6 @@
 import SLModel.Core.Cursor
 import SLModel.Lemmas.KeysetGen
+import SLModel.Lemmas.CursorJson
 /-!
 # C11 — cursor pagination is complete, duplicate-free and safe
 
@@ -675,6 +676,63 @@ theorem decodeCursor_encodeScore (req : Req) (c : ScoreCursor) (hw : c.wf) (hv :
       .ok ⟨[.score c.scoreBits], c.segmentOrd, c.docId, c.returned, c.generation, none⟩ := by
   apply (decodeCursor_ok req _ _).mpr
   exact Or.inl ⟨hf, c, cursor_roundtrip_score c hw hv hr, hg, rfl⟩
+
+/-! ## F. `decode_cursor` is total -/
+
+/-- **decode_total** — on every byte string (any length, any bytes, any request) the decoder
+terminates with `ok`, an error of the code, or `unmodelled`; the fuel of the two JSON loops
+(members, values), started at "remaining bytes + 1", is never exhausted.  All other readers are
+structurally recursive over the bytes. -/
+theorem decode_total (req : Req) (raw : Bytes) : decodeCursor req raw ≠ .error .fuel := by
+  have hsortj := parseSortJson_nofuel
+  have hparse : parseSort raw ≠ .error .fuel := by
+    unfold parseSort
+    repeat' split
+    all_goals first
+      | (intro h; cases h; done)
+      | exact hsortj _
+  have hscore : parseScore raw ≠ .error .fuel := by
+    unfold parseScore
+    repeat' split
+    all_goals (intro h; cases h)
+  have hds : decodeScore req raw ≠ .error .fuel := by
+    unfold decodeScore
+    cases hp : parseScore raw with
+    | ok c => simp only; split <;> (intro h; cases h)
+    | error e => simp only; intro h; injection h with h; subst h; exact hscore hp
+    | unmodelled => simp only; intro h; cases h
+  have hdo : decodeSort req raw ≠ .error .fuel := by
+    unfold decodeSort
+    cases hp : parseSort raw with
+    | ok c =>
+      simp only
+      unfold checkSort
+      repeat' split
+      all_goals (intro h; cases h)
+    | error e => simp only; intro h; injection h with h; subst h; exact hparse hp
+    | unmodelled => simp only; intro h; cases h
+  unfold decodeCursor
+  split
+  · cases hd : decodeScore req raw with
+    | ok c => simp only; intro h; cases h
+    | error e => simp only; intro h; injection h with h; subst h; exact hds hd
+    | unmodelled => simp only; intro h; cases h
+  · cases hd : decodeSort req raw with
+    | ok c => simp only; intro h; cases h
+    | error e => simp only; intro h; injection h with h; subst h; exact hdo hd
+    | unmodelled => simp only; intro h; cases h
+
+/-- the three outcomes are exhaustive and exclusive by construction of `Dec`; in particular every
+input has exactly one outcome class -/
+theorem decode_outcome (req : Req) (raw : Bytes) :
+    (∃ st, decodeCursor req raw = .ok st) ∨ (∃ e, e ≠ DecErr.fuel ∧ decodeCursor req raw = .error e) ∨
+    decodeCursor req raw = .unmodelled := by
+  cases h : decodeCursor req raw with
+  | ok st => exact Or.inl ⟨st, rfl⟩
+  | error e =>
+    refine Or.inr (Or.inl ⟨e, ?_, rfl⟩)
+    intro he; subst he; exact decode_total req raw h
+  | unmodelled => exact Or.inr (Or.inr rfl)
 
 /-! ## D. negative witnesses (decided by the kernel on concrete small inputs) and non-vacuity -/
 
